@@ -41,7 +41,7 @@ var compileClasses = []struct {
 	class string
 	re    *regexp.Regexp
 }{
-	{"import-error", regexp.MustCompile(`could not import|import cycle|is not in std|no required module|cannot find package|cannot find module providing|no export data`)},
+	{"import-error", regexp.MustCompile(`could not import|import cycle|is not in std|no required module|cannot find package|cannot find module providing|no export data|cannot import package as|is a program, not an importable package`)},
 	{"redeclared", regexp.MustCompile(`redeclared in this block`)},
 	{"method-redeclared", regexp.MustCompile(`method .* already declared`)},
 	{"duplicate-method", regexp.MustCompile(`duplicate method`)},
@@ -292,7 +292,12 @@ func features(p *Program) []string {
 						set["optional-enum-in-literal"] = true
 					}
 					if d.Named.File != fi {
-						if typeHas(p, fd.Type, func(t *Type) bool { return t.Kind == idlgen.Named && t.Named.File != d.Named.File }) {
+						// the file through which the literal's type is NAMED (a typedef may sit between)
+						via := d.Named.File
+						if t != nil && t.Kind == idlgen.Named {
+							via = t.Named.File
+						}
+						if typeHas(p, fd.Type, func(x *Type) bool { return x.Kind == idlgen.Named && x.Named.File != via && x.Named.File != fi }) {
 							set["foreign-literal-foreign-member"] = true
 						}
 						hasIdent := false
